@@ -22,6 +22,9 @@ class Pidfile:
         oldpid = self.validate()
         if oldpid:
             if oldpid == os.getpid():
+                # a stale file that already names us (pid reuse, e.g. in
+                # a container): it is ours to remove or rename later
+                self.pid = pid
                 return
             msg = "Already running on PID %s (or pid file '%s' is stale)"
             raise RuntimeError(msg % (oldpid, self.fname))
